@@ -107,6 +107,12 @@ pub fn curated() -> Vec<(&'static str, Spec, bool)> {
     add("la_alt_merge2", true, vec![r("a|b$").prio(9), r("[ab]"), r("[0-9]")]);
     add("la_alt_merge3", true, vec![r("x|y(?m:$)").prio(9), r("[xy]"), t("\n")]);
     add("la_alt_merge_skip", true, vec![s(r";|#(?-u:\b)").prio(10), r("[;#]"), r("[a-z]+")]);
+    // one leaf completing unconditionally on one branch and through a look-ahead on another, both
+    // ending in the same match state
+    add("la_alt_shared", true, vec![r(r"a(?-u:\b)|b"), r("[0-9]")]);
+    add("la_alt_shared2", true, vec![r(r"[0-9]+(?-u:\b)|[0-9]+\.[0-9]+"), s(" "), r("[a-z]+")]);
+    add("la_alt_shared3", true, vec![r("x$|y"), r("[a-z]").prio(1)]);
+    add("la_alt_shared4", true, vec![r("(?m:ab$)|ab;|c"), r("[a-c;]").prio(1), t("\n")]);
     // skips recognised by a late-accept state (the skip ends in a look-ahead assertion)
     add("skip_la_eol", true, vec![s("//[^\n]*(?m:$)").greedy(), r("[a-z]+"), t("\n"), t("/")]);
     add("skip_la_end", true, vec![s("#[a-z]*$"), r("[a-z]+"), t("#").prio(1)]);
